@@ -10,6 +10,13 @@
    cache.enum    {threads, seed, fails, noCache, limit: n} → {count: n, scheds: [[tid…]…] | null (count > limit)}
    cache.judge   {hist: [ev…] (oldest first), seed, fails} → {spec: bool, distinct: bool, ok: bool}
    cache.key     {truthy: bool, parent: str, name: str} → {key: ["pair",p,n]|["bare",n], old: str}
+   cache.session {rqs: [{truthy: bool, parent: str, name: str}…], world: W, noCache: bool,
+                  ops: [["run",c,l,rq] | ["world",W] | ["clearAll"] | ["clearLoaders"] | ["clearPipes",l|null]
+                        | ["clearFiles"] | ["clearSteps"] | ["noCache",b]…]}
+                 W = {resolve: [[rq, file|null]…], fileVer: [[file, ver]…], custom: [[l, rq, ver|null]…]}
+                 (requests not listed resolve to nothing / raise)
+                 → {runs: [{ran: ver|null, loaderMade, defMade, fileRead, stepMade: bool, clean: bool,
+                            fresh: ver|null}…]}   (`CacheTS.Stack.session` from the initial state)
    cache.syspath {threads: [[p…]…], sched, exists: [p…], base: [p…], finish: bool}
                  → {sysPath: [p…], known: [p…] (sorted, deduplicated), done: bool}
 -/
@@ -91,8 +98,76 @@ def progsOfJson (j : Json) : Except String (List (List Op)) := do
   (← (← j.getObjVal? "threads").getArr?).toList.mapM fun p => do
     (← p.getArr?).toList.mapM opOfJson
 
+
+/-! ### `cache.session`: the layers above the caches (`CacheTS.Stack`) -/
+section StackOps
+open Pypyr.CacheTS.Stack
+
+def rqOfJson (j : Json) : Except String Rq := do
+  pure { pt := ← boolField j "truthy", ps := ← (← j.getObjVal? "parent").getStr?,
+         name := ← (← j.getObjVal? "name").getStr? }
+
+def optNat (j : Json) : Except String (Option Nat) :=
+  match j with
+  | .null => pure none
+  | _ => (jsonNat? j).map some
+
+def worldOfJson (rqs : Array Rq) (j : Json) : Except String World := do
+  let rq (i : Nat) : Except String Rq := match rqs[i]? with
+    | some r => pure r
+    | none => .error "request index out of range"
+  let res ← (← (← j.getObjVal? "resolve").getArr?).toList.mapM fun e => do
+    match (← e.getArr?).toList with
+    | [i, f] => pure ((← rq (← jsonNat? i)), (← optNat f))
+    | _ => .error "bad resolve entry"
+  let fv ← (← (← j.getObjVal? "fileVer").getArr?).toList.mapM fun e => do
+    match (← e.getArr?).toList with
+    | [f, v] => pure ((← jsonNat? f), (← jsonNat? v))
+    | _ => .error "bad fileVer entry"
+  let cu ← (← (← j.getObjVal? "custom").getArr?).toList.mapM fun e => do
+    match (← e.getArr?).toList with
+    | [l, i, v] => pure ((← jsonNat? l), (← rq (← jsonNat? i)), (← optNat v))
+    | _ => .error "bad custom entry"
+  -- falsy parents all mean "no parent": look requests up by their cache key
+  pure { resolve := fun r => ((res.find? (fun e => e.1.key == r.key)).map (·.2)).join
+         fileVer := fun f => ((fv.find? (·.1 == f)).map (·.2)).getD 0
+         custom := fun l r => ((cu.find? (fun e => e.1 == l && e.2.1.key == r.key)).map (·.2.2)).join }
+
+def lopOfJson (rqs : Array Rq) (j : Json) : Except String LOp := do
+  match (← j.getArr?).toList with
+  | [.str "run", c, l, i] =>
+    match rqs[(← jsonNat? i)]? with
+    | some r => pure (.run (← jsonNat? c) (← jsonNat? l) r)
+    | none => .error "request index out of range"
+  | [.str "world", w] => pure (.world (← worldOfJson rqs w))
+  | [.str "clearAll"] => pure .clearAll
+  | [.str "clearLoaders"] => pure .clearLoaders
+  | [.str "clearPipes", l] => pure (.clearPipes (← optNat l))
+  | [.str "clearFiles"] => pure .clearFiles
+  | [.str "clearSteps"] => pure .clearSteps
+  | [.str "noCache", .bool b] => pure (.setNoCache b)
+  | _ => .error "bad session op"
+
+def optNatJson : Option Nat → Json
+  | some n => (n : Json)
+  | none => Json.null
+
+def handleSession (j : Json) : Except String Json := do
+  let rqs ← (← (← j.getObjVal? "rqs").getArr?).mapM rqOfJson
+  let w ← worldOfJson rqs (← j.getObjVal? "world")
+  let nc ← boolField j "noCache"
+  let ops ← (← (← j.getObjVal? "ops").getArr?).toList.mapM (lopOfJson rqs)
+  let out := session w { LState.init with noCache := nc } Flags.none ops
+  pure (Json.mkObj [("runs", Json.arr (out.map fun x => Json.mkObj [
+    ("ran", optNatJson x.1.ran), ("loaderMade", Json.bool x.1.loaderMade), ("defMade", Json.bool x.1.defMade),
+    ("fileRead", Json.bool x.1.fileRead), ("stepMade", Json.bool x.1.stepMade),
+    ("clean", Json.bool x.2.1), ("fresh", optNatJson x.2.2)]).toArray)])
+
+end StackOps
+
 def handle (op : String) (j : Json) : Except String Json := do
   match op with
+  | "session" => handleSession j
   | "enum" =>
     let cfg ← cfgOfJson j
     let progs ← progsOfJson j
